@@ -31,8 +31,8 @@ var c21Values = []int{0, 1, 2, 5, 50, 1_000_000}
 func TestVerif_C21(t *testing.T) {
 	rec := kit.Open("C21")
 	defer rec.Done()
-	nCorp := rec.N(60, 1500)
-	nQ := rec.N(10, 14)
+	nCorp := rec.N(30, 500) // building a world costs ~0.7 s (shard builders)
+	nQ := rec.N(20, 24)
 	for ci := 0; ci < nCorp; ci++ {
 		w, err := newWorld(rec, 21_000_000+uint64(ci), worldOpt{singles: ci%4 == 3})
 		if err != nil {
@@ -49,7 +49,7 @@ func TestVerif_C21(t *testing.T) {
 		}
 		w.close()
 	}
-	c21ManyShards(rec, rec.N(6, 60))
+	c21ManyShards(rec, rec.N(3, 30))
 }
 
 type c21Out struct {
@@ -399,8 +399,10 @@ func c21ManyShards(rec *kit.Rec, n int) {
 		qg := kit.NewQGen(w.g, w.c, w.ev)
 		qg.MaxDepth = 1
 		qs := []query.Q{&query.Const{Value: true}, &query.Substring{Pattern: "a", Content: true}}
-		q, _ := matchingQuery(qg, w, 6, 8)
-		qs = append(qs, q)
+		for k := 0; k < 4; k++ {
+			q, _ := matchingQuery(qg, w, 6, 8)
+			qs = append(qs, q)
+		}
 		for _, q := range qs {
 			c21Sharded(rec, w, w.dirS, len(w.paths), q, zoekt.SearchOptions{Whole: true, ChunkMatches: w.g.R.IntN(2) == 0}, true)
 		}
